@@ -56,10 +56,23 @@ def derive(schema, fields):
             bkw = "_%s_boost" % name
             fboost = float(fields[bkw]) if bkw in fields else docboost
             posts = {}
+            tok = None
+            if name in ("tx", "txb"):
+                # independent of formats.word_values: count the occurrences and sum their boosts
+                # straight from the analyzer's token stream (times the format's field boost)
+                tok = {}
+                for t in field.analyzer(value, positions=True, boosts=True, mode="index"):
+                    c = tok.setdefault(field.to_bytes(t.text), [0, 0.0])
+                    c[0] += 1
+                    c[1] += t.boost
             for tbytes, freq, weight, vbytes in field.index(value):
+                if tok is not None:
+                    freq, weight = tok[tbytes][0], tok[tbytes][1] * field.format.field_boost
                 posts[tbytes] = (freq, f32(weight * fboost), vbytes or b"")
                 if field.scorable:
                     length += freq
+            if tok is not None and set(tok) != set(posts):
+                raise AssertionError("token stream and field.index disagree on the terms of %r" % (name,))
             d.postings[name] = posts
         vformat = field.vector
         if vformat:
